@@ -96,7 +96,7 @@ def run(ctx):
             fs.append("resolution")
         r.shuffle(fs)
         body = [f"{PASCAL[f]} = {value_for(r, f)}" for f in fs]
-        for _ in range(r.choice([0, 0, 1, 2])):
+        for _ in range(r.choice([0, 0, 1, 2]) if len(bodies) % 40 else r.choice([100, 400])):     # (a few long sections)
             body.insert(r.randrange(len(body) + 1), r.choice(["", "garbage", "Unknown = 5", '  Name2 = "x"', "= 5", "0 = N 0 0", "name = \"lower\""]))
         bodies.append(body)
     # values of every text of <= 2 symbols for one string field
